@@ -2,6 +2,7 @@ package c05
 
 import (
 	"fmt"
+	"runtime"
 	"sort"
 	"testing/synctest"
 	"time"
@@ -92,6 +93,7 @@ type invRec struct {
 	stamp int64
 	ret   int64
 	retAt time.Time
+	how   string // "" returned | "panic" | "goexit"
 }
 
 // probe is the outermost JobWrapper. Schedule calls Chain.Then on the caller's
@@ -110,28 +112,62 @@ func (w *world) probe(j cron.Job) cron.Job {
 		w.starts = append(w.starts, s)
 		w.curOut[gid] = s
 		w.mu.Unlock()
+		defer func() { // also when the job ends by runtime.Goexit
+			w.mu.Lock()
+			delete(w.curOut, gid)
+			s.ret = w.stamp()
+			w.mu.Unlock()
+		}()
 		j.Run()
-		w.mu.Lock()
-		delete(w.curOut, gid)
-		s.ret = w.stamp()
-		w.mu.Unlock()
 	})
+}
+
+// genBad gives some entries of a plan a job function that ends abnormally on a
+// seeded run: a panic only where a Recover wrapper is in the chain (otherwise
+// it would kill the process, by design), runtime.Goexit anywhere (startJob's
+// deferred Done and every wrapper's deferred clean-up run).
+func genBad(rng *mon.RNG, chain string, s *schedSpec) {
+	hasRecover := chain == "recover" || chain == "recover+delay" || chain == "recover+skip"
+	switch {
+	case hasRecover && rng.Chance(1, 3):
+		s.Bad = rng.PickStr("panic", "panic", "goexit")
+	case !hasRecover && rng.Chance(1, 8):
+		s.Bad = "goexit"
+	default:
+		return
+	}
+	s.BadOn = rng.PickInt(1, 1, 2, 3)
+	s.BadRep = rng.Chance(1, 3)
 }
 
 // job is the user job function of entry e.
 func (w *world) job(e *ent) {
 	w.mu.Lock()
+	e.nInv++
+	k := e.nInv
 	iv := &invRec{e: e, out: w.curOut[curGID()], at: w.now(), stamp: w.stamp()}
 	w.invs = append(w.invs, iv)
 	gate := w.gate
 	w.mu.Unlock()
-	if e.spec.Block {
+	sp := e.spec
+	if sp.Bad != "" && (k == sp.BadOn || (sp.BadRep && k%sp.BadOn == 0)) {
+		iv.how = sp.Bad
+	}
+	defer func() {
+		w.mu.Lock()
+		iv.ret = w.stamp()
+		iv.retAt = w.now()
+		w.mu.Unlock()
+	}()
+	if sp.Block {
 		<-gate
 	}
-	w.mu.Lock()
-	iv.ret = w.stamp()
-	iv.retAt = w.now()
-	w.mu.Unlock()
+	switch iv.how {
+	case "panic":
+		panic(fmt.Sprintf("harness: seeded panic of entry %d, run %d", e.h, k))
+	case "goexit":
+		runtime.Goexit()
+	}
 }
 
 // checkChain judges the user-job invocations against the wrapper semantics.
@@ -199,6 +235,14 @@ func (w *world) checkChain(where string) {
 				fail("wrapped-job-not-returned-at-the-end", fmt.Sprintf("entry %d: the job started at %s has not returned although every gate is open", h, ft(o.at)))
 			}
 		}
+		for i, iv := range p.invs {
+			if iv.how != "" {
+				rec.Count("chain."+base+".run_ended_by_"+iv.how, 1)
+				if i+1 < len(p.invs) && base != "skip" {
+					rec.Count("chain."+base+".later_run_after_"+iv.how, 1)
+				}
+			}
+		}
 		switch base {
 		case "none":
 			for _, o := range p.outs {
@@ -256,7 +300,26 @@ func (w *world) checkChain(where string) {
 				}
 			}
 		case "skip":
+			// pinned SkipIfStillRunning gives its token back with a plain statement after
+			// j.Run(), not a deferred one: a run that ends by panic (under Recover) or
+			// Goexit keeps it, and every later activation of that entry is skipped. The
+			// statement speaks about the scheduler's starts only, so this is looked at,
+			// not judged: from the first abnormal end on the entry is only counted.
+			var abnormal *invRec
+			for _, iv := range p.invs {
+				if iv.how != "" && abnormal == nil {
+					abnormal = iv
+				}
+			}
 			for _, o := range p.outs {
+				if abnormal != nil && o.stamp > abnormal.stamp {
+					if len(ofOut[o]) == 0 {
+						rec.Count("chain.skip.observed_skipped_after_"+abnormal.how+"_of_earlier_run", 1)
+					} else {
+						rec.Count("chain.skip.observed_invoked_after_"+abnormal.how+"_of_earlier_run", 1)
+					}
+					continue
+				}
 				// the entry's last run that began before this start
 				var last *invRec
 				for _, iv := range p.invs {
